@@ -133,7 +133,6 @@ func init() {
 		},
 	}
 
-
 	un := func(name string, f func(float64) float64) {
 		intrinsicTable["math."+name] = func(in *Interp, fn *ssa.Function, a []Value, s ssa.Instruction) (Value, bool) {
 			x := in.term(a[0])
